@@ -185,8 +185,11 @@ def random_history(rng, faults, maxlen, nres=4, ncom=3):
                         val = rng.choice(["O", "R", "R", "I"])
                     if post == "T" and rng.random() < 0.3:
                         post = "F"
-                elif rng.random() < 0.05:
-                    val = "O"
+                else:
+                    if rng.random() < 0.05:
+                        val = "O"
+                    if big and rng.random() < 0.15:
+                        out = ["N"]        # a missing object inside a large (multi-chunk) request: parallel must equal sequential
                 reqs.append({"r": r, "k": k, "val": val, "post": post, "out": out})
             op = {"op": "G", "reqs": reqs}
             if m == 1 and rng.random() < 0.3:
